@@ -87,6 +87,11 @@ fn enumerate_tables(full: bool) -> Vec<TableCase> {
             subsets.push(vec![a, b]);
             for c in b + 1..gaps.len() {
                 subsets.push(vec![a, b, c]);
+                if full {
+                    for d in c + 1..gaps.len() {
+                        subsets.push(vec![a, b, c, d]);
+                    }
+                }
             }
         }
     }
@@ -137,7 +142,7 @@ pub fn run_tables(env: &Env, rep: &Report) {
         }
     });
     rep.set_exhaustive("tables", true);
-    rep.note("tables", "every table over <=3 of the gaps 0..8 with limits from {0.25,0.5,1,2,4}, sorted and reversed insertion, first gap optionally configured twice (same batch before/after, earlier/later batch); probed at gaps 0..10 x 32 distances (0, each limit +-2 ulp, 0.75*limit, 10)".into());
+    rep.note("tables", "every table over <=3 (thorough: <=4) of the gaps 0..8 with limits from {0.25,0.5,1,2,4}, sorted and reversed insertion, first gap optionally configured twice (same batch before/after, earlier/later batch); probed at gaps 0..10 x 32 distances (0, each limit +-2 ulp, 0.75*limit, 10)".into());
 }
 
 // ---------------------------------------------------------------------------------------------
